@@ -386,3 +386,47 @@ Proof.
   destruct (N.ltb_spec KERNEL_VERSION (u32 0 (firstn 16 r))) as [|Hle]; [apply K|].
   intros _ _. unfold KERNEL_VERSION in *. lia.
 Qed.
+
+(* ------------------------------------------------------------------ statements as used by Props/C12.v *)
+Lemma init_runs cfg h minor ra flags f2 want :
+  init_fits 7 minor ra flags f2 = true ->
+  let offered := N.land (client_capable (init_q 7 minor ra flags f2)) (cfg_fsopt_mask cfg) in
+  let body := init_reply_body minor ra (init_enabled offered want) in
+  do_init cfg h (init_req 7 minor ra flags f2) (FInit want)
+    = (([mk "init" (0, 0, 0) [AN offered]], ReplyOk body), Some minor) /\
+  blen body = init_body_len minor /\
+  kget "fuse_init_out" "major" O body = 7.
+Proof.
+  intros Hf. cbv zeta.
+  split; [exact (init_success_run cfg h minor ra flags f2 want Hf)|].
+  split; [exact (init_success_len cfg minor ra flags f2 want)|exact (init_success_major cfg minor ra flags f2 want)].
+Qed.
+
+(* whatever the filesystem answers, the only call is `init` with the offered-and-known word *)
+Lemma init_capable_offered cfg h minor ra flags f2 fr cs a m :
+  init_fits 7 minor ra flags f2 = true ->
+  do_init cfg h (init_req 7 minor ra flags f2) fr = ((cs, a), m) ->
+  cs = [mk "init" (0, 0, 0) [AN (N.land (client_capable (init_q 7 minor ra flags f2)) (cfg_fsopt_mask cfg))]].
+Proof.
+  intros Hfits. destruct (init_fits_elim _ _ _ _ _ Hfits) as [Hmaj [Hmin [Hra [Hfl Hf2]]]].
+  rewrite do_init_req by assumption. unfold do_init_parsed.
+  change (7 <? KERNEL_VERSION) with false. change (KERNEL_VERSION <? 7) with false. cbv zeta.
+  rewrite (flags64_is_client_capable 7 minor ra flags f2 Hf2).
+  destruct fr; intro H; pose proof (f_equal (fun t => fst (fst t)) H) as E; cbn [fst] in E;
+    symmetry; exact E.
+Qed.
+
+Lemma init_major_mismatch cfg h major minor ra flags f2 fr :
+  init_fits major minor ra flags f2 = true ->
+  (major < 7 -> do_init cfg h (init_req major minor ra flags f2) fr = (([], ReplyErr EPROTO None), None)) /\
+  (7 < major -> do_init cfg h (init_req major minor ra flags f2) fr = (([], ReplyOk init_version_only), None)).
+Proof.
+  intros Hf. split; intro H.
+  - exact (init_major_low cfg h major minor ra flags f2 fr Hf H).
+  - exact (init_major_high cfg h major minor ra flags f2 fr Hf H).
+Qed.
+
+Lemma max_write_page_sizes :
+  max_write_for 4096 BIG_WRITES_BIT = init_max_write BIG_WRITES_BIT /\
+  max_write_for 65536 BIG_WRITES_BIT + BUFFER_HEADER_SIZE > MAX_BUFFER_SIZE + BUFFER_HEADER_SIZE.
+Proof. split; [reflexivity|exact max_write_64k_too_big]. Qed.
